@@ -51,7 +51,13 @@ TRAVERSERS == {"map", "foldl", "foldr", "select", "reject", "any", "all", "stabl
 MUTATIONS  == {"shrink", "shrink-many", "grow", "empty", "overwrite", "grow-then-shrink"}
 MUTENTRIES == {"top", "handler"}
 
+\* a value of EVERY size from 0 to 1100 (a byte string, a string, a list, a vector, a map, a byte string inside a map) handed
+\* to a sink in one loop: a buffer that is one byte short at some sizes only answers internal-panic there
+SWEEPSINKS == {"json-dump-bytes", "json-dump-string", "json-dump-message", "base64-encode", "to-string", "format-string", "concat-string", "to-bytes", "json-roundtrip", "equal"}
+SWEEPSHAPES == {"bytes", "string", "list", "vector", "map", "bytes-in-map", "string-in-list"}
+
 Recipes == [kind : {"vehicle"}, what : VEHICLES, shape : {"-"}, entry : ENTRIES]
+           \cup [kind : {"sweep"}, what : SWEEPSINKS, shape : SWEEPSHAPES, entry : {"top"}]
            \cup [kind : {"sink"}, what : SINKS, shape : SHAPES, entry : SINKENTRIES]
            \cup [kind : {"mutcb"}, what : TRAVERSERS, shape : MUTATIONS, entry : MUTENTRIES]
 
